@@ -1,5 +1,6 @@
 SPECIFICATION FairSpec
 CONSTANTS
+  KeepHist = FALSE
   MaxC = 3
   MaxW = 2
   Opts = {"10", "01"}
